@@ -30,13 +30,18 @@ text = f"""### 9.4 Detection record
 sub-agent that was given only the property text and its own scratch worktree (nothing from /verif), and was confirmed
 by the coordinator in another scratch worktree (`seedverify.sh`: patch applies to HEAD, the demonstration fails with it
 and passes without it, the touched packages' own tests still pass) before the property's check was run against
-/repo + patch (`seedrun.sh`, through the build overlay; /repo untouched). Two rounds: one change per property
+/repo + patch (`seedrun.sh`, through the build overlay; /repo untouched). Three rounds: one change per property
 (`<id>`), then a second, different change for 24 properties (`<id>-2`; the sub-agents were told what the first
-round had used). "Missed ..." rows are changes that the check as built at that time did not report; the check was
-then strengthened (never the other way round) and the change re-verified. One second-round change (C07-2, a
-foreign-key cascade) is reported by C08, not by the property's own concurrent harness (C03-2 by both). After the last change to any
-check all 68 stored changes were run once more against the final checks: every one is reported
-(`/verif/seeded/RESULTS.md`); so are the ~210 overlay-only mutants (`./mutants_all.sh`).
+round had used), then a third for 10 properties that had only one (`<id>-3`: C08 C13 C25 C28 C33 C35 C36 C39 C41 C42;
+again fresh sub-agents, a different mechanism each). "Missed ..." rows are changes that the check as built at that time
+did not report; the check was then strengthened (never the other way round) and the change re-verified. The second-round
+change C07-2 (a foreign-key cascade) was at first reported by C08 only; since the txpipe schema has a composite cascading
+foreign key C07 reports it itself (C03-2 likewise by C03 and C08). Third round: C25-3 C33-3 C39-3 were reported at once
+(C13-3 at once by C28, and by C13 after C13 got the values' own `Compare` as a second oracle); C08-3 C35-3 C36-3 C41-3
+C42-3 were missed and the checks strengthened (index-first recursive schema; copy-isolation family; in-place change of
+a range; account without a password hash; exits through a nested `t.Query` block). After the last change of the second
+round all 68 changes stored then were run once more against the checks (`/verif/seeded/RESULTS.md`); the third-round
+rows record the run of the strengthened check; so are the ~210 overlay-only mutants (`./mutants_all.sh`).
 
 | seeded | property | change | needs | caught by |
 |---|---|---|---|---|
